@@ -46,7 +46,7 @@ LEVEL_NOTE = ("project_equations (revision, linearisation, singular_coords) is a
               "(C20_adjusted_sound_svd_of_project_equations), general covariance, no abstract pe; hdim is derived (C20_peWorld_dim, premise "
               "DirFromStation = a stand-point's directions start at its station), hstill is derived where singular_coords does not fire and "
               "proved false otherwise (C20_peWorld_still / C20_peWorld_not_still); what remains is WorldHyp: on every configuration the loop "
-              "can visit NoAlias, m0 != 0, covariance invertible and the algorithm's first- and second-stage unambiguity (not yet one "
+              "can visit RowsOK (since round 12 the range condition only, a theorem for project_equations() output: C01_pe_rowsOK; NoAlias is gone), m0 != 0, covariance invertible and the algorithm's first- and second-stage unambiguity (not yet one "
               "input-side hypothesis; conclusions witnessed by kernel evaluation over Q only; the composed world is run by no driver). "
               "Round 13: WorldHyp is needed only on the configurations REACHABLE by the removal loop - the sub-configurations of the given "
               "network (same ids, statuses kept or unused; closed under project_equations, the huge-covariance pass and removeUnknown: "
